@@ -1279,7 +1279,7 @@ func (s *shardedSearcher) replace(shards map[string]zoekt.Searcher) {
 	metricShardsLoaded.Set(float64(len(ranked)))
 }
 
-func loadShard(fn string) (zoekt.Searcher, error) {
+func loadShard(fn string) (_ zoekt.Searcher, err error) {
 	f, err := os.Open(fn)
 	if err != nil {
 		return nil, err
@@ -1289,6 +1289,17 @@ func loadShard(fn string) (zoekt.Searcher, error) {
 	if err != nil {
 		return nil, err
 	}
+
+	// The reader trusts offsets and sizes stored in the file, so a corrupt
+	// shard can make it panic. Shards are loaded on goroutines of the serving
+	// process: fail the load of this shard instead of crashing the process.
+	defer func() {
+		if r := recover(); r != nil {
+			iFile.Close()
+			err = fmt.Errorf("NewSearcher(%s): panic: %v", fn, r)
+		}
+	}()
+
 	s, err := index.NewSearcher(iFile)
 	if err != nil {
 		iFile.Close()
